@@ -92,8 +92,13 @@ impl State {
     }
 }
 
+/// under the server's own tree: first segment exactly `$SYS` (`$SYSx/..` is an ordinary key)
+fn in_sys(k: &str) -> bool {
+    k == "$SYS" || k.starts_with("$SYS/")
+}
+
 fn user_key(k: &str) -> bool {
-    !k.is_empty() && !k.starts_with("$SYS") && !k.split('/').any(|s| s == "?" || s == "#")
+    !k.is_empty() && !in_sys(k) && !k.split('/').any(|s| s == "?" || s == "#")
 }
 
 async fn read_state(s: &mut Session) -> Result<BTreeMap<String, (Value, u64)>, Failure> {
@@ -109,7 +114,7 @@ async fn read_state(s: &mut Session) -> Result<BTreeMap<String, (Value, u64)>, F
     let mut tid = 10u64;
     for kv in kvps {
         let key = kv["key"].as_str().unwrap_or("").to_owned();
-        if key.starts_with("$SYS") {
+        if in_sys(&key) {
             continue;
         }
         tid += 1;
@@ -192,7 +197,7 @@ async fn run_case(case: &Case, kfs: &KnownFindings, backend: Backend) -> Result<
             W::PDelete(p) => {
                 let pat = parse_pattern(p);
                 // patterns reaching $SYS are not part of this check
-                if !p.is_empty() && pattern_valid(&pat) && !p.starts_with('#') && !p.starts_with('?') && !p.starts_with("$SYS") {
+                if !p.is_empty() && pattern_valid(&pat) && !p.starts_with('#') && !p.starts_with('?') && !in_sys(p) {
                     let keys: Vec<Path> = m.data.keys().filter(|k| m.q_matches(&pat, k)).cloned().collect();
                     if keys.len() >= 2 {
                         big_pdelete = true;
@@ -212,7 +217,7 @@ async fn run_case(case: &Case, kfs: &KnownFindings, backend: Backend) -> Result<
                 }
             }
             W::GraveGoods(g) => {
-                let g: Vec<String> = g.iter().filter(|p| !p.starts_with('#') && !p.starts_with('?') && !p.starts_with("$SYS")).cloned().collect();
+                let g: Vec<String> = g.iter().filter(|p| !p.starts_with('#') && !p.starts_with('?') && !in_sys(p)).cloned().collect();
                 cur.gg = Some(g.clone());
                 states.push(cur.clone());
                 json!({"set": {"transactionId": tid, "key": format!("$SYS/clients/{me_str}/graveGoods"), "value": g}})
@@ -425,7 +430,8 @@ pub fn check_case_on(case: &Case, kfs: &KnownFindings, backend: Backend) -> Resu
 }
 
 fn key() -> BoxedStrategy<String> {
-    proptest::collection::vec(prop_oneof![4 => Just("a"), 3 => Just("b"), 2 => Just("c"), 1 => Just("ä")], 1..=3).prop_map(|v| v.join("/")).boxed()
+    // `$SYSx` and `$SYS-b` are ordinary segments that merely start like the server's own tree
+    proptest::collection::vec(prop_oneof![8 => Just("a"), 6 => Just("b"), 4 => Just("c"), 2 => Just("ä"), 1 => Just("$SYSx"), 1 => Just("$SYS-b")], 1..=3).prop_map(|v| v.join("/")).boxed()
 }
 
 fn pat() -> BoxedStrategy<String> {
